@@ -186,6 +186,39 @@ def main(tier):
     with ThreadPoolExecutor(6) as ex:
         results += list(ex.map(go_first, fu))
     tot['first_use_runs'] = len(fu)
+    # collision clusters: pairs of DIFFERENT formulas with the same number of distinct elements whose strings collide under a common string hash (the
+    # 31- and 33-multiplier hashes, FNV-1a), hammered by 8 threads at once, one short run per pair - a cache or memo keyed on a hash of the formula
+    # hands one thread the other thread's compound only when two such strings are in flight at the same moment
+    def _hashes(b):
+        h31 = h33 = 0; h33 = 5381; hf = 2166136261
+        for c in b:
+            h31 = (h31 * 31 + c) & 0xffffffff; h33 = (h33 * 33 + c) & 0xffffffff; hf = ((hf ^ c) * 16777619) & 0xffffffff
+        return h31, h33, hf
+    from . import formula_model as _fm
+    _syms = list(_fm.SYMBOLS)[:98]
+    _terms = [(s_, s_ + d_) for s_ in _syms for d_ in ('', '2', '3', '4', '5', '7')]
+    _pool = [a_[1] + b_[1] for a_ in _terms for b_ in _terms if a_[0] != b_[0]]
+    clusters = []
+    for fam in range(3):
+        d_ = {}
+        for f_ in _pool:
+            d_.setdefault(_hashes(f_.encode())[fam], []).append(f_)
+        cand = sorted(v[:2] for v in d_.values() if len(v) > 1)
+        pick_ = np.random.default_rng(ck.seed * 977 + fam).permutation(len(cand))[:(8 if tier == 'quick' else 60) if fam < 2 else 6]
+        clusters += [cand[i] for i in pick_]
+    cjobs = []
+    for ci, (f1, f2) in enumerate(clusters):
+        r1, s1 = libs['shipped'].build('CS_Total_CP', [f1, f2, f1, f2], np.array([8.0, 8.0, 17.44, 17.44]))
+        r2, s2 = c16.special_req('CompoundParser_summary', s=[f1, f2])
+        r2 = r2.copy(); r2['s'][r2['s'] >= 0] += len(s1)
+        cjobs.append((len(plan) + len(fu) + ci, ('shipped', 'tsan' if ci % 5 == 0 else 'plain', 8, 4000 if ci % 5 == 0 else 25000, 0, 0), np.concatenate([r1, r2]), list(s1) + list(s2)))
+
+    def go_cluster(job):
+        i, (cfg, fl, th, calls, yld, loc), Qc, Sc = job
+        return (i, (cfg, fl, th, calls, yld, loc)), run_one(mons[(cfg, fl)], Qc, Sc, th, calls, yld, dict(LC_ALL='C'), ck.seed * 1000 + i)
+    with ThreadPoolExecutor(4) as ex:
+        results += list(ex.map(go_cluster, cjobs))
+    tot['collision_cluster_runs'] = len(cjobs)
     for (i, (cfg, fl, th, calls, yld, loc)), r in results:
         where = dict(config=cfg, flavour=fl, threads=th, calls_per_thread=calls, yield_permille=yld, locale='xx_VERIF' if loc else 'C', run=i, seed=ck.seed * 1000 + i)
         if r.get('watchdog'):
@@ -229,7 +262,7 @@ def main(tier):
                     'parser, catalogue lookups, crystal copies + structure factors, error copy/propagate on private slots), ThreadSanitizer build and plain build, '
                     'C and comma-decimal locale, seeded yields at the library hook points; every result compared bit for bit with a serial reference; '
                     'distinct = distinct overlap signatures (region entered x set of regions other threads were inside) observed through the hooks',
-               samples=samples, threads_run_under_their_own_numeric_locale=tot.get('threads_with_own_locale', 0), runs=tot['runs'], runs_per_build=tot.get('runs_per_build'), cold_start_runs=tot.get('cold', 0), first_use_runs_one_per_entry_point=tot.get('first_use_runs', 0), hook_events=tot['events'], injected_yields=tot['yields'],
+               samples=samples, threads_run_under_their_own_numeric_locale=tot.get('threads_with_own_locale', 0), runs=tot['runs'], runs_per_build=tot.get('runs_per_build'), cold_start_runs=tot.get('cold', 0), first_use_runs_one_per_entry_point=tot.get('first_use_runs', 0), runs_on_pairs_of_formulas_that_collide_under_common_string_hashes=tot.get('collision_cluster_runs', 0), hook_events=tot['events'], injected_yields=tot['yields'],
                region_entries=dict(zip(REGION, tot['enter'])), entries_while_other_threads_inside=dict(zip(REGION, tot['overlap'])),
                private_crystal_file_episodes=tot.get('file_episodes', 0), overlap_signatures=tot['sigs'], failing_calls=tot['failing'], error_api_uses=tot['errapi'])
     return ck.finish(cov, ['TSan sees only instrumented code and intercepted libc calls', 'no thread mutates a shared crystal collection (documented exception)'])
